@@ -296,7 +296,9 @@ func skipFirstWhitespace(box Box, skipStack tree.ResumeStack) (tree.ResumeStack,
 	}
 
 	if skipStack != nil {
-		panic(fmt.Sprintf("unexpected skip inside %s", box.Type()))
+		// an atomic inline-level box that was broken by a forced page break (inline-flex, inline-block, …):
+		// there is no white space to skip in it, it is resumed where it stopped
+		return skipStack, false
 	}
 
 	return nil, false
